@@ -363,6 +363,9 @@ def main(ctx, args):
                 corpus.append({"origin": "corpus/excmd-args", "vi": False, "cps": [ord(c) for c in line + ".\n" + line], "size": (24, 80), "file": None, "exinit": "", "k": -1})
                 corpus.append({"origin": "corpus/excmd-args", "vi": False, "cps": [ord(c) for c in "e other\ne text\n" + line + ".\n" + line], "size": (24, 80),
                                "file": "one\ntwo a b\nthree\n", "exinit": "", "k": -1})
+                if not ctx.quick or (loc == "" and arg in ("", " #", " x", " !x")):      # the same typed at the prompt of visual mode
+                    corpus.append({"origin": "corpus/excmd-args-vi", "vi": True, "cps": [ord(c) for c in ":" + line + "\x1b:e other\n:" + line + "\x1b"], "size": (8, 40),
+                                   "file": "one\ntwo a b\nthree\n", "exinit": "", "k": -1})
     # every two-key vi command: a prefix key (operators, g z ^W [ ] " ' ` m @ q Z r f F t T) followed by every byte 1..126 except ^Z,
     # each as a stream of its own on a small text (thorough: also in the empty buffer, and with a count in front)
     prefixes = ["g", "z", "\x17", "[", "]", "\"", "'", "`", "m", "@", "q", "Z", "r", "f", "F", "t", "T", "c", "d", "y", "<", ">", "!", "\x17g"]
